@@ -10,6 +10,7 @@ import PycfModel.Model.Net
 import PycfModel.Model.Policy
 import PycfModel.Model.Discover
 import PycfModel.Model.Cast
+import PycfModel.Model.RoundTrip
 import PycfModel.Model.Validators
 import PycfModel.Model.Dispatch
 import PycfModel.Generated.Net
@@ -346,6 +347,33 @@ def runOp (j : Json) : Except String Json := do
       | some (.arr xs), some ys => if Cast.elemsSound e xs ys then none else some (Json.str s)
       | _, _ => none
     pure (Json.mkObj [("cv", cvJson (Cast.cast e fuel v)), ("unsound", .arr unsound.toArray), ("unsound_lists", .arr badLists.toArray)])
+  | "roundtrip" =>
+    -- C15: cast, dump, cast again; and the hypotheses of C15_cast_roundtrip evaluated on this engine table
+    let e ← engineOf (← (j.getObjVal? "engine"))
+    let v ← getJ j "value"
+    let fuel := match j.getObjVal? "fuel" with | .ok (.num n) => n.mantissa.toNat | _ => 8
+    let names ← match (← (j.getObjVal? "engine")).getObjVal? "strings" with
+      | .ok (.arr rs) => pure (rs.toList.filterMap fun r => match r with | .arr #[.str s, _] => some s | _ => none)
+      | _ => pure []
+    let c1 := Cast.cast e fuel v
+    let c2 := Cast.cast e fuel (Cast.dump c1)
+    let fuelShort := names.filter fun s => (cvJson (Cast.strCast e (fuel + 1) s)).compress != (cvJson (Cast.strCast e fuel s)).compress
+    pure (Json.mkObj [("first", cvJson c1), ("second", cvJson c2),
+      ("equal", .bool ((cvJson c1).compress == (cvJson c2).compress)),
+      ("dump", ofJ (Cast.dump c1)),
+      ("law_empty", .bool (e.propertyModel (.obj [])).isNone),
+      ("fuel_short", .arr (fuelShort.map Json.str).toArray)])
+  | "b64" =>
+    let s ← getStr j "text"
+    match Cast.b64decodeSimple s.toList with
+    | some bs => pure (Json.mkObj [("bytes", .arr (bs.map fun (b : Nat) => Json.num ⟨Int.ofNat b, 0⟩).toArray)])
+    | none => pure (Json.mkObj [("error", .bool true)])
+  | "leaves15" =>
+    let v ← getJ j "value"
+    let name ← getStr j "name"
+    pure (Json.mkObj [
+      ("semi_bool", match Cast.semiBool v with | some b => .bool b | none => .null),
+      ("no_colon", .str (String.ofList (Cast.removeColon name.toList)))])
   | "validators" =>
     let v ← getJ j "value"
     let modelled ← match j.getObjVal? "modelled" with
